@@ -24,10 +24,15 @@ func main() {
 	Main(map[string]*Suite{
 		"C17q":   {Gen: genQ, Run: runQ},
 		"C17lin": {Gen: genLin, Run: runLin},
+		// the same programs, fewer of them, for the harness binary built with -race
+		"C17race": {Gen: func(g *GenCtx) { raceTier = true; genLin(g) }, Run: runLin},
 	})
 }
 
 var errOther = errors.New("verif: other error")
+
+// raceTier shrinks the generated campaign (the race detector slows everything down)
+var raceTier bool
 
 // watchdog for a call that must return; generous so that a loaded machine cannot trip it
 const watchdog = 25 * time.Second
